@@ -1,4 +1,9 @@
+#[cfg(not(feature = "verif"))]
 use std::sync::{Arc, Condvar, Mutex};
+#[cfg(feature = "verif")]
+use std::sync::Arc;
+#[cfg(feature = "verif")]
+use teos_common::verif::sync::{Condvar, Mutex};
 use tonic::{Code, Request, Response, Status};
 use triggered::Trigger;
 
